@@ -398,7 +398,10 @@ def _bytes_cases(fb):
         fo.overrides = {"cv2.imdecode": lambda a, k, dec=dec: dec}
         try:
             r = fo.call(fb.node, [Opaque("bytes", "data")], {})
-        except Raised:
+        except Raised as e_:
+            from ..fold import raised_by_code
+            if not raised_by_code(e_):
+                return None   # an exception of the fold's own making
             if want != "raise":
                 bad.append(f"decoded shape {shape}: raises instead of building an image")
             continue
